@@ -205,6 +205,8 @@ def secondary_case_ok(case, host):
     pid = str(case.get("id", ""))
     ver = case.get("ver")
     native = bool(ver) and "%d.%d" % (ver[0], ver[1]) == host
+    if "+" in pid or pid.startswith("design"):
+        return False    # the k=2 pairs and the pairwise design (thorough tier) run on the primary host only
     return native or "@module" in pid
 
 
